@@ -199,6 +199,38 @@ pub struct UnifyOpts {
     pub record_trace: bool,
     pub record_folds: bool,
     pub step_budget:  u64,
+    /// How the judgement set is delivered through the public state API.
+    pub mode:         Delivery,
+}
+
+/// Equivalent ways of handing one judgement set to the unifier.
+#[derive(Copy, Clone, Debug, PartialEq, Eq, Serialize, Deserialize)]
+pub enum Delivery {
+    /// `register` every variable, `infer` every judgement, `unify` once.
+    Plain,
+    /// The state is used twice: half of the variables are registered and the
+    /// (still empty) state is unified once; the other half is then allocated
+    /// with `allocate_ty_var` (as the mapping rule does), the judgements are
+    /// recorded and the state is unified again.
+    TwoPhase,
+    /// Equalities are recorded on one side only, through `inferences_mut`
+    /// (`infer` would mirror them).
+    OneSidedEqualities,
+    /// The judgements are recorded in the state of a `TypeChecker` and
+    /// unification runs as that stage (`TypeChecker::unify`), the way the
+    /// pipeline reaches it, instead of through the free function.
+    ThroughTypeChecker,
+}
+
+impl Delivery {
+    pub fn for_schedule(index: usize) -> Delivery {
+        match index {
+            1 => Delivery::TwoPhase,
+            2 => Delivery::OneSidedEqualities,
+            3 => Delivery::ThroughTypeChecker,
+            _ => Delivery::Plain,
+        }
+    }
 }
 
 impl Default for UnifyOpts {
@@ -207,6 +239,7 @@ impl Default for UnifyOpts {
             record_trace: false,
             record_folds: false,
             step_budget:  3_000_000,
+            mode:         Delivery::Plain,
         }
     }
 }
@@ -223,14 +256,50 @@ pub fn run_unify(ev: &EvidenceSet, sched: &Sched, opts: &UnifyOpts) -> UnifyOutc
     let wd: DynWatchdog = wd;
     sim::capture_panics(true);
     let result = panic::catch_unwind(AssertUnwindSafe(|| {
-        let mut state = TypeCheckerState::empty();
-        let vars: Vec<TypeVariable> = (0..ev.n_vars)
-            .map(|_| state.register(RSV::new_value(0, Provenance::Synthetic)))
-            .collect();
+        // The state lives either on its own or inside a type checker.
+        let mut checker = if opts.mode == Delivery::ThroughTypeChecker {
+            Some(sle::tc::TypeChecker::new(sim::tc_config(false), wd.clone()))
+        } else {
+            None
+        };
+        let mut own_state = TypeCheckerState::empty();
+        let state: &mut TypeCheckerState = match checker.as_mut() {
+            Some(c) => unsafe { c.state_mut() },
+            None => &mut own_state,
+        };
+        let vars: Vec<TypeVariable> = if opts.mode == Delivery::TwoPhase {
+            let half = ev.n_vars / 2;
+            let mut vars: Vec<TypeVariable> = (0..half).map(|_| state.register(RSV::new_value(0, Provenance::Synthetic))).collect();
+            // First use of the state object.
+            let _ = state.variables();
+            let _ = unification::unify(state, &wd);
+            // Second use: more variables, allocated the way rules allocate
+            // them, then the evidence.
+            for _ in half..ev.n_vars {
+                vars.push(unsafe { state.allocate_ty_var() });
+            }
+            vars
+        } else {
+            (0..ev.n_vars).map(|_| state.register(RSV::new_value(0, Provenance::Synthetic))).collect()
+        };
         for (v, e) in &ev.judgements {
-            state.infer(vars[*v], e.to_te(&vars));
+            match (opts.mode, e) {
+                (Delivery::OneSidedEqualities, Ev::Equal { other }) if other != v => {
+                    state.inferences_mut(vars[*v]).insert(TE::eq(vars[*other]));
+                }
+                _ => state.infer(vars[*v], e.to_te(&vars)),
+            }
         }
-        let r = unification::unify(&mut state, &wd);
+        let r = if opts.mode == Delivery::ThroughTypeChecker {
+            // (the borrow of the state above ends here)
+            checker.as_mut().expect("checker exists in this mode").unify().map(|_layout| ())
+        } else {
+            unification::unify(state, &wd)
+        };
+        let state: &mut TypeCheckerState = match checker.as_mut() {
+            Some(c) => unsafe { c.state_mut() },
+            None => &mut own_state,
+        };
         let error = r.err().map(|e| {
             e.payloads()
                 .iter()
